@@ -84,6 +84,12 @@ def one(m):
                 return m, "BROKEN", "rename touched nothing"
             open(path, "w").write(ast.unparse(tree) + "\n")
         else:
+            if "base" in m:
+                # the text edit is made on top of a stored behaviour-preserving refactor (rules must decide rewritten code too)
+                bp = os.path.join(VERIF, "seeded", m["base"], "patch.diff")
+                p = subprocess.run(["patch", "-p1", "-s", "-d", d, "-i", bp], capture_output=True, text=True)
+                if p.returncode != 0:
+                    return m, "BROKEN", f"base patch {m['base']} does not apply: {p.stdout[:200]}"
             path = os.path.join(d, "src", "rnapolis", m["file"])
             s = open(path).read()
             edits = m["edits"] if "edits" in m else [(m["old"], m["new"])]
